@@ -289,3 +289,87 @@ def h_fold(d1: float, d2: float, sp1: int, sp2: int, t: int, pick: int) -> bool:
     if tt1 > t and not (len(rem) == 2 and rem[1] == route[1]):
         return False
     return True
+
+
+# ------------------------------------------------------------------------------------- degenerate head link, two-link moves
+class _Net2(_Net):
+    sim_h3_resolution = 15
+
+    def geoid_within_geofence(self, g):
+        return True
+
+
+def h_fold_deg(d2: float, sp2: int, t: int, pick: int) -> bool:
+    """
+    a street-graph route whose first link is a zero-length stub (vehicle standing on the end node of its link):
+    traverse() must drive the following link exactly as if the stub were not there
+    pre: 0 <= sp2 <= 3 and 0 <= t <= 7200 and 0 <= pick <= 2
+    post: _
+    """
+    s2 = _speed(sp2)
+    if s2 is None or not ((0.001 <= d2) & (d2 <= 50)):
+        return True
+    stub = LinkTraversal("L1", A.CELL_B, A.CELL_B, 0.3, 40.0)
+    l2 = LinkTraversal("L2", A.CELL_B, A.CELL_C, d2, s2)
+    net = _Net({"L1": stub, "L2": l2})
+    stubs.H3_SHIM.candidates = ()
+    stubs.H3_SHIM.pick = pick
+    err_a, a = traverse((stub, l2), t, net)  # ---- real code
+    err_b, b = traverse((l2,), t, net)
+    if err_a is not None or err_b is not None or a is None or b is None:
+        return False
+    note("fold-deg", len(a.experienced_route), len(a.remaining_route))
+    rem_a = tuple(l for l in a.remaining_route if l.start != l.end)  # an undriven stub may stay listed: it is no road
+    return (a.experienced_route == b.experienced_route and rem_a == b.remaining_route
+            and a.remaining_time_seconds == b.remaining_time_seconds and feq(a.traversal_distance_km, b.traversal_distance_km))
+
+
+_L1 = A.ROUTE[(0, 1)][0]._replace(link_id="L1")
+_L2 = A.ROUTE[(1, 2)][0]._replace(link_id="L2")
+_TT1 = int(_L1.distance_km / _L1.speed_kmph * 3600)
+_TT2 = int(_L2.distance_km / _L2.speed_kmph * 3600)
+
+
+def h_move2(dt: int, pick: int, e: float) -> bool:
+    """
+    real move() over a two-link route (the step may end on the first link, at the node, on the second link or at the end)
+    pre: 1 <= dt <= 400 and 0 <= pick <= 2
+    post: _
+    """
+    from nrel.hive.state.vehicle_state.vehicle_state_ops import move
+    from nrel.hive.state.simulation_state import simulation_state_ops as sso
+
+    if not ((1 <= e) & (e <= 50)):
+        return True
+    net = _Net2({"L1": _L1, "L2": _L2})
+    route = (_L1, _L2)
+    v = replace(A.V0, position=A.POS[0], vehicle_state=A.Repositioning.build("v0", route), energy=immutables.Map({A.E: e}))
+    sim = A.SIM0._replace(road_network=net, sim_time=mk_time(1000), sim_timestep_duration_seconds=dt)
+    sim = sso.add_vehicle_safe(sim, v).unwrap()
+    env, rec = A.env_with_recorder()
+    stubs.H3_SHIM.candidates = ()
+    stubs.H3_SHIM.pick = pick
+    err, sim2 = move(sim, env, "v0")  # ---- real code
+    if err is not None or sim2 is None:
+        return False
+    v2 = sim2.vehicles["v0"]
+    if isinstance(v2.vehicle_state, A.OutOfService):
+        return v2.geoid == v.geoid and v2.distance_traveled_km == v.distance_traveled_km
+    r2 = v2.vehicle_state.route
+    d_odo = v2.distance_traveled_km - v.distance_traveled_km
+    note("move2", len(r2), "node" if v2.geoid == A.CELL_B else ("end" if v2.geoid == A.CELL_C else "inside"))
+    # the vehicle stands where the remaining route starts (or at the destination when nothing remains)
+    if len(r2) > 0:
+        if r2[0].start != v2.geoid or r2[-1].end != A.CELL_C or v2.position.link_id != r2[0].link_id and v2.geoid != A.CELL_B:
+            return False
+    elif v2.geoid != A.CELL_C or v2.position.link_id != "L2":
+        return False
+    if dt < _TT1:
+        # still on the first link
+        return len(r2) == 2 and r2[0].link_id == "L1" and r2[1] == _L2 and v2.position.link_id == "L1" and fle(d_odo, _L1.distance_km)
+    if dt < _TT1 + _TT2:
+        # first link done, somewhere on the second
+        if not (len(r2) >= 1 and r2[-1].link_id == "L2" and fle(_L1.distance_km, d_odo) and fle(d_odo, _L1.distance_km + _L2.distance_km)):
+            return False
+        return v2.position.link_id == "L2" or (v2.geoid == A.CELL_B and dt == _TT1)
+    return len(r2) == 0 and feq(d_odo, _L1.distance_km + _L2.distance_km)
